@@ -36,7 +36,7 @@ EXC_TYPES = ['KeyError', 'IndexError', 'ValueError', 'TypeError', 'TypeErrorArgu
              'AssertionError', 'ZeroDivisionError', 'Custom', 'OSError', 'LookupError']
 FLOORS = {
     'quick': dict({'events_checked': 4000, 'tagging_compared': 2500, 'failing_reached': 800, 'default_only_compared': 4000,
-                   'declared_params_calls': 500, 'fallback_name_calls': 1000, 'nomemo_retry_k3': 200, 'memo_replay_seen': 25,
+                   'declared_params_calls': 500, 'per_instance_compared': 4000, 'per_instance_mixed_named_and_default': 500, 'based_rule_events_both_declare_params': 20, 'fallback_name_calls': 1000, 'nomemo_retry_k3': 200, 'memo_replay_seen': 25,
                    'gen_cases': 400, 'gen_reused_cases': 150, 'scalar_family_cases': 1200}, **{'exc_propagated:' + e: 60 for e in EXC_TYPES}),
     'thorough': {'events_checked': 100000, 'tagging_compared': 60000, 'failing_reached': 20000},
 }
@@ -81,7 +81,33 @@ def gen_case(rng):
             r.params = tuple(rng.sample(['A', 'b', 7, 'Ty::Base', 'N::M::K'], rng.choice([1, 2])))
         if rng.random() < 0.2:
             r.kwparams = (('k', rng.choice([1, 'v'])),)
+    if rng.random() < 0.3 and len(g.rules) > 1:
+        # a based rule (r < base): base's right hand side then r's own; documented: the base rule's parameters are
+        # taken only when the based rule declares none of its own
+        leaf = G.gen_exp(rng, 1, [], dict(F, cut=False), list(G.PATS)[:5])
+        bs = L.Rule('bs', leaf)
+        if rng.random() < 0.85:
+            bs.params = tuple(rng.sample(['B', 'base', 3, 'BT::BB'], rng.choice([1, 2])))
+        if rng.random() < 0.4:
+            bs.kwparams = (('k', 'fromBase'),) if rng.random() < 0.5 else (('j', 2),)
+        i = rng.randrange(1, len(g.rules))
+        r = g.rules[i]
+        rules = [g.rules[0], bs] + list(g.rules[1:])
+        own = r.params or (tuple(rng.sample(['D', 'own', 9], rng.choice([1, 2]))) if rng.random() < 0.6 else ())
+        rules[i + 1] = L.Rule(r.name, r.body, r.decorators, own, r.kwparams, base='bs')
+        g = L.Grammar(rules, dict(g.directives), tuple(g.keywords))
     return g
+
+
+def declared(g, rule):
+    """(params, kwparams) the rule's action must receive: its own, or the base rule's where it declares none (docs, based rules)"""
+    params, kw = list(rule.params), dict(rule.kwparams)
+    if rule.base:
+        b = g.rule(rule.base)
+        bp, bk = declared(g, b)
+        params = params or bp
+        kw = kw or bk
+    return params, kw
 
 
 class Backend:
@@ -169,8 +195,13 @@ def check_recording(acc, be, g, text, tag):
             acc.violation(f'event-unknown-rule/{be.kind}', f'action {name!r} invoked but no such rule: {L.grammar_text(g).strip()!r}', w)
             continue
         decl = rules[rname]
-        if list(decl.params) != list(params) or dict(decl.kwparams) != dict(kwparams):
-            acc.violation(f'params/{be.kind}', f'action {name!r} got params {params} {kwparams}, rule declares {decl.params} {decl.kwparams}: '
+        dparams, dkw = declared(g, decl)
+        if decl.base:
+            acc.count('based_rule_events')
+            if decl.params and g.rule(decl.base).params:
+                acc.count('based_rule_events_both_declare_params')
+        if dparams != list(params) or dkw != dict(kwparams):
+            acc.violation(f'params/{be.kind}', f'action {name!r} got params {params} {kwparams}, rule declares {dparams} {dkw}: '
                                               f'{L.grammar_text(g).strip()!r} {text!r}', w)
         if pos is None:
             acc.count('event_pos_unobserved')
@@ -339,6 +370,53 @@ def check_default_only(acc, be, g, text, rec_events):
                       f'{L.grammar_text(g).strip()!r} {text!r}', base_witness(g, text, backend=be.kind, sem='default_only'))
 
 
+class PerInstance:
+    """ONE class, objects that expose different actions: named actions live on the instance (callables set as attributes),
+    the rest goes to _default.  Which action serves a rule must be decided on the object given to this parse."""
+
+    def __init__(self, names):
+        self.log = []
+        for n in names:
+            setattr(self, n, self._named(n))
+
+    def _named(self, n):
+        def action(ast, *a, **kw):
+            self.log.append(('named', n, crepr(ast)))
+            return ast
+        return action
+
+    def _default(self, ast, *a, **kw):
+        self.log.append(('default', None, crepr(ast)))
+        return ast
+
+
+def check_per_instance(acc, be, g, text, rng, rec_events):
+    """two objects of the same semantics class with different sets of named actions, one after the other"""
+    names = [safe(r.name) for r in g.rules]
+    subsets = [set(n for n in names if rng.random() < 0.5) for _ in range(2)]
+    if subsets[0] == subsets[1]:
+        subsets[1] = set(names) - subsets[0]
+    for k, sub in enumerate(subsets):
+        sem = PerInstance(sorted(sub))
+        out = run(be, g, text, sem)
+        acc.evaluations += 1
+        w = base_witness(g, text, backend=be.kind, sem='per_instance', named=sorted(sub), order=k)
+        if out[0] == 'raised':
+            acc.violation(f'exc:{type(out[1]).__name__}/per-instance/{be.kind}', f'parse raised {show(out)} with per-instance actions', w)
+            return
+        acc.count('per_instance_compared')
+        want = collections.Counter(('named', e[0], crepr(e[1])) if e[0] in sub else ('default', None, crepr(e[1])) for e in rec_events)
+        got = collections.Counter(sem.log)
+        if want != got:
+            d = list((want - got).items())[:2], list((got - want).items())[:2]
+            acc.violation(f'per-instance-action-lookup/{be.kind}',
+                          f'object #{k + 1} of one semantics class exposes named actions {sorted(sub)}; the calls made do not follow it '
+                          f'(missing {d[0]}, unexpected {d[1]}): {L.grammar_text(g).strip()!r} {text!r}', w)
+            return
+        if sub and any(e[0] in sub for e in rec_events) and any(e[0] not in sub for e in rec_events):
+            acc.count('per_instance_mixed_named_and_default')
+
+
 def check_declared(acc, be, g, text, rng):
     """methods with declared parameters and the documented fallback names (_rule, rule_)"""
     target = rng.choice(g.rules)
@@ -367,9 +445,10 @@ def check_declared(acc, be, g, text, rng):
                       f'method {mname!r} for rule {target.name!r} called {len(calls)} times, a catch-all recorder sees {len(expected)}: '
                       f'{L.grammar_text(g).strip()!r} {text!r}', w)
         return
+    tparams, tkw = declared(g, target)
     for params, kw in calls:
-        if params != list(target.params) or kw != dict(target.kwparams):
-            acc.violation(f'params/declared/{be.kind}', f'method {mname!r} got {params} {kw}, declared {target.params} {target.kwparams}', w)
+        if params != tparams or kw != tkw:
+            acc.violation(f'params/declared/{be.kind}', f'method {mname!r} got {params} {kw}, declared {tparams} {tkw}', w)
             return
 
 
@@ -459,6 +538,7 @@ def run_shard(desc, acc):
             check_raising(acc, be, g, text, rng)
             if res is not None:
                 check_default_only(acc, be, g, text, res[2].events)
+                check_per_instance(acc, be, g, text, rng, res[2].events)
             check_declared(acc, be, g, text, rng)
         check_nomemo(acc, rng, kind)
         check_scalars(acc, rng, kind)
